@@ -1,15 +1,19 @@
 use crate::infra::Prop;
 
+pub mod c07;
 pub mod c09;
+pub mod c10;
 
 pub fn all() -> Vec<&'static str> {
-    vec!["C09"]
+    vec!["C07", "C09", "C10"]
 }
 
 pub fn get(id: &str) -> Box<dyn Prop> {
     crate::bind::init();
     match id {
+        "C07" => Box::new(c07::C07),
         "C09" => Box::new(c09::C09),
+        "C10" => Box::new(c10::C10),
         _ => crate::infra::machinery_exit(&format!("unknown property {id}")),
     }
 }
